@@ -1,6 +1,6 @@
 (* C09 - Requests are the protocol's, go to the right port, and echo challenges.
    Rows proved so far: Valve. *)
-From GD Require Import Base.Prelude Model.Strings Model.Buffer Model.Net Model.Valve Model.Quake Proofs.Msafe Proofs.ValveTotal Proofs.QuakeTotal.
+From GD Require Import Base.Prelude Model.Strings Model.Buffer Model.Net Model.Valve Model.Quake Model.Unreal2 Proofs.Msafe Proofs.ValveTotal Proofs.QuakeTotal Proofs.Unreal2Total.
 
 (* every datagram the query emits, for any script: addressed to the query's
    port, and a request of the A2S language *)
@@ -32,6 +32,13 @@ Theorem c09_quake_sends_are_requests : forall port v t u tc sf, settings_ok t ->
   p = port /\ d = [255; 255; 255; 255] ++ send_header v ++ [0].
 Proof. exact quake_sends_are_requests. Qed.
 Print Assumptions c09_quake_sends_are_requests.
+
+(* Unreal 2: 79 00 00 00 <kind>, kind 0 (info), 1 (mutators and rules), 2 (players) *)
+Theorem c09_unreal2_sends_are_requests : forall port g t u tc sf, settings_ok t ->
+  forall p d, In (SendEv p d) (n_trace (snd (u2_query port g t (net_init u tc sf)))) ->
+  p = port /\ (d = u2_request 0 \/ d = u2_request 1 \/ d = u2_request 2).
+Proof. exact u2_sends_are_requests. Qed.
+Print Assumptions c09_unreal2_sends_are_requests.
 
 Example c09_ex_requests :
   to_bytes 84 (default_payload 84) = [255; 255; 255; 255; 84] ++ str "Source Engine Query" ++ [0]
